@@ -503,14 +503,169 @@ Proof.
   intros Hk Hpk. apply rewind_equals_fresh; [exact Hk|]. apply calls_of_pk; [apply pinv_init|exact Hpk].
 Qed.
 
-(* a state reached from a fresh demuxer by any calls, then Rewind: the form the property text uses *)
-Fixpoint run_calls (P : dparsers) (prs : option custom_parser) (skip : Packet -> bool) (cs : list dcall) (s : dstate) : dstate :=
-  match cs with
+(* ================= the form of the property text: any history, then Rewind ================= *)
+
+(* the demuxer never replaces its reader by one over another stream, of another kind or with another fault *)
+Definition same_stream (r r' : reader) : Prop :=
+  r_all r' = r_all r /\ r_total r' = r_total r /\ r_fault r' = r_fault r /\ r_kind r' = r_kind r.
+
+Lemma same_refl r : same_stream r r.
+Proof. repeat split. Qed.
+Lemma same_trans r1 r2 r3 : same_stream r1 r2 -> same_stream r2 r3 -> same_stream r1 r3.
+Proof. intros (A1 & A2 & A3 & A4) (B1 & B2 & B3 & B4). repeat split; congruence. Qed.
+Lemma same_advance r n : same_stream r (r_advance r n).
+Proof. repeat split. Qed.
+Lemma same_seek0 r : same_stream r (r_seek0 r).
+Proof. repeat split. Qed.
+Lemma same_seek0_eq r r' : same_stream r r' -> r_seek0 r' = r_seek0 r.
+Proof. intros (A1 & A2 & A3 & A4). unfold r_seek0. congruence. Qed.
+
+Lemma read_full_same r n : same_stream r (snd (read_full r n)).
+Proof. unfold read_full. destruct (r_stop r) as [stop inj]. destruct (n <=? _); apply same_advance. Qed.
+
+Lemma auto_detect_same r : same_stream r (snd (auto_detect r)).
+Proof.
+  unfold auto_detect.
+  pose proof (read_full_same r detect_window) as H1.
+  destruct (r_kind r); destruct (read_full r detect_window) as [[bs e] r1]; cbn [snd] in H1.
+  - (* Plain *)
+    destruct e as [[| |]|]; cbn [snd]; try exact H1;
+      (destruct (negb _); [exact H1|]; destruct (find_sync _ 0) as [ps|]; [|exact H1]);
+      pose proof (read_full_same r1 (ps - (detect_window - ps))) as H2;
+      destruct (read_full r1 (ps - (detect_window - ps))) as [[bs2 e2] r2]; cbn [snd] in H2;
+      (destruct e2 as [[| |]|]; cbn [snd]; exact (same_trans _ _ _ H1 H2)).
+  - (* Seekable *)
+    destruct e as [[| |]|]; cbn [snd]; try exact H1;
+      (destruct (negb _); [exact H1|]; destruct (find_sync _ 0) as [ps|]; [|exact H1]);
+      cbn [snd]; exact (same_trans _ _ _ H1 (same_seek0 r1)).
+  - (* Bufio *)
+    destruct e as [[| |]|]; cbn [snd]; try apply same_refl;
+      (destruct (negb _); [exact H1|]; destruct (find_sync _ 0) as [ps|]; [apply same_refl|exact H1]).
+Qed.
+
+Lemma new_packet_buffer_same r opt : same_stream r (snd (new_packet_buffer r opt)).
+Proof.
+  unfold new_packet_buffer. destruct (opt =? 0); [|apply same_refl].
+  pose proof (auto_detect_same r) as H. destruct (auto_detect r) as [[ps|c|] r']; exact H.
+Qed.
+
+Lemma pb_next_same skip size fuel : forall r, same_stream r (snd (fst (pb_next fuel skip size r))).
+Proof.
+  induction fuel as [|k IH]; intros r; [apply same_refl|].
+  cbn [pb_next]. pose proof (read_full_same r size) as H1.
+  destruct (read_full r size) as [[bs e] r1]. cbn [snd] in H1.
+  destruct e as [[| |]|]; cbn [fst snd]; try exact H1.
+  destruct (run_iter (parse_packet skip) bs) as [p|c|]; cbn [fst snd]; try exact H1.
+  destruct (c =? E_skipped); [|exact H1].
+  specialize (IH r1). destruct (pb_next k skip size r1) as [[x r2] l]. cbn [fst snd] in *. exact (same_trans _ _ _ H1 IH).
+Qed.
+
+Lemma packet_buffer_next_same skip pb r : same_stream r (snd (fst (packet_buffer_next skip pb r))).
+Proof.
+  unfold packet_buffer_next. destruct (pb_size pb <? 0); [apply same_refl|]. destruct (pb_size pb =? 0); [apply same_refl|].
+  apply pb_next_same.
+Qed.
+
+(* reader and size option of a state are those of a demuxer created on reader r with option opt *)
+Definition on_stream (r : reader) (opt : Z) (s : dstate) : Prop := same_stream r (d_reader s) /\ d_opt_size s = opt.
+
+Lemma next_packet_on r opt skip s : on_stream r opt s -> on_stream r opt (snd (next_packet skip s)).
+Proof.
+  intros [H1 H2]. unfold next_packet. destruct (d_pb s) as [pb|].
+  - pose proof (packet_buffer_next_same skip pb (d_reader s)) as H.
+    destruct (packet_buffer_next skip pb (d_reader s)) as [[rp r'] l]. cbn [fst snd] in *.
+    split; [exact (same_trans _ _ _ H1 H)|exact H2].
+  - pose proof (new_packet_buffer_same (d_reader s) (d_opt_size s)) as H.
+    destruct (new_packet_buffer (d_reader s) (d_opt_size s)) as [[pb|c|] r1]; cbn [snd] in *;
+      try (split; [exact (same_trans _ _ _ H1 H)|exact H2]).
+    cbn [set_pb set_reader d_reader]. pose proof (packet_buffer_next_same skip pb r1) as H'.
+    destruct (packet_buffer_next skip pb r1) as [[rp r'] l]. cbn [fst snd] in *.
+    split; [exact (same_trans _ _ _ H1 (same_trans _ _ _ H H'))|exact H2].
+Qed.
+
+Lemma update_data_on r opt s ds : on_stream r opt s -> on_stream r opt (snd (update_data s ds)).
+Proof. intros H. destruct ds; exact H. Qed.
+
+Lemma drain_on r opt P prs fuel : forall s, on_stream r opt s -> on_stream r opt (snd (drain P prs fuel s)).
+Proof.
+  induction fuel as [|k IH]; intros s H; [exact H|].
+  cbn [drain]. destruct (pool_dump (d_pool s)) as [pl1 ps]. destruct ps as [|p0 t]; [exact H|].
+  set (s1 := log_group (set_pool s pl1) (p0 :: t)). assert (H1 : on_stream r opt s1) by exact H.
+  destruct (parse_data P prs (d_pm s1) (p0 :: t)) as [ds|c|]; [|apply IH; exact H1|exact H1].
+  pose proof (update_data_on r opt s1 ds H1) as U. destruct (update_data s1 ds) as [[dd|] s2]; cbn [snd] in *; [exact U|apply IH; exact U].
+Qed.
+
+Lemma loop_on r opt P prs skip fuel : forall s, on_stream r opt s -> on_stream r opt (snd (next_data_loop P prs skip fuel s)).
+Proof.
+  induction fuel as [|k IH]; intros s H; [exact H|].
+  cbn [next_data_loop]. pose proof (next_packet_on r opt skip s H) as N.
+  destruct (next_packet skip s) as [[p|c|] s1]; cbn [snd] in N.
+  - destruct (pool_add (d_pm s1) (d_pool s1) p) as [pl1 ps]. destruct ps as [|p0 t]; [apply IH; exact N|].
+    set (s2 := log_group (set_pool s1 pl1) (p0 :: t)). assert (H2 : on_stream r opt s2) by exact N.
+    destruct (parse_data P prs (d_pm s2) (p0 :: t)) as [ds|c|]; try exact H2.
+    pose proof (update_data_on r opt s2 ds H2) as U. destruct (update_data s2 ds) as [[dd|] s3]; cbn [snd] in *; [exact U|apply IH; exact U].
+  - destruct (c =? E_nomore); [apply drain_on; exact N|exact N].
+  - exact N.
+Qed.
+
+Lemma call_on r opt P prs skip c s : on_stream r opt s -> on_stream r opt (snd (call P prs skip c s)).
+Proof.
+  intros H. destruct c; cbn [call].
+  - pose proof (next_packet_on r opt skip s H) as N. destruct (next_packet skip s) as [rp s1]. exact N.
+  - unfold next_data. destruct (d_buffer s) as [|dd rest].
+    + pose proof (loop_on r opt P prs skip (nd_fuel s) s H) as N.
+      destruct (next_data_loop P prs skip (nd_fuel s) s) as [rp s1]. exact N.
+    + exact H.
+Qed.
+
+Lemma rewind_on r opt s : on_stream r opt s -> on_stream r opt (snd (rewind s)).
+Proof.
+  intros [H1 H2]. unfold rewind, rewind_reader. destruct (r_kind (d_reader s)); cbn [snd d_reader d_opt_size]; split; auto;
+  try exact (same_trans _ _ _ H1 (same_seek0 _)).
+Qed.
+
+(* a history: NextPacket / NextData calls and Rewinds in any order *)
+Inductive dop := OpCall (c : dcall) | OpRewind.
+
+Fixpoint run_ops (P : dparsers) (prs : option custom_parser) (skip : Packet -> bool) (ops : list dop) (s : dstate) : dstate :=
+  match ops with
   | [] => s
-  | c :: r => run_calls P prs skip r (snd (call P prs skip c s))
+  | OpCall c :: r => run_ops P prs skip r (snd (call P prs skip c s))
+  | OpRewind :: r => run_ops P prs skip r (snd (rewind s))
   end.
 
-(* the calls never replace the reader by another stream or kind *)
-Lemma r_advance_same r n : r_all (r_advance r n) = r_all r /\ r_total (r_advance r n) = r_total r /\
-  r_fault (r_advance r n) = r_fault r /\ r_kind (r_advance r n) = r_kind r.
-Proof. repeat split. Qed.
+Lemma run_ops_on r opt P prs skip ops : forall s, on_stream r opt s -> on_stream r opt (run_ops P prs skip ops s).
+Proof.
+  induction ops as [|[c|] rest IH]; intros s H; [exact H| |]; cbn [run_ops]; apply IH.
+  - apply call_on. exact H.
+  - apply rewind_on. exact H.
+Qed.
+
+Lemma fresh_seek0 r : fresh r -> r_seek0 r = r.
+Proof. destruct r. unfold fresh, r_seek0. cbn. intros (-> & -> & _). reflexivity. Qed.
+
+(* C20: a demuxer created on a seekable reader r (at the start of its stream), after ANY history of NextPacket /
+   NextData calls and earlier Rewinds (so: mid-unit, with parsed sections still buffered, at end of stream, ...),
+   answers Rewind with offset 0 and then returns, for every sequence of calls, exactly what a freshly created demuxer
+   on r returns -- provided the fresh run is "PAT first" with respect to the program map retained at that point *)
+Theorem rewind_any_history P prs skip r opt ops cs : fresh r -> r_kind r = Seekable ->
+  let s := run_ops P prs skip ops (init_dstate r opt) in
+  calls_pf (d_pm s) P prs skip cs (init_dstate r opt) ->
+  fst (rewind s) = 0 /\ calls P prs skip cs (snd (rewind s)) = calls P prs skip cs (init_dstate r opt).
+Proof.
+  intros Hf Hk s Hpf.
+  assert (Hon : on_stream r opt s) by (apply run_ops_on; split; [apply same_refl|reflexivity]).
+  destruct Hon as [Hs Ho].
+  assert (Hk' : r_kind (d_reader s) = Seekable) by (destruct Hs as (_ & _ & _ & E); congruence).
+  assert (Hinit : init_dstate (r_seek0 (d_reader s)) (d_opt_size s) = init_dstate r opt).
+  { rewrite (same_seek0_eq r _ Hs), Ho, (fresh_seek0 r Hf). reflexivity. }
+  pose proof (rewind_equals_fresh P prs skip s cs Hk') as H. rewrite Hinit in H. apply H. exact Hpf.
+Qed.
+
+Theorem rewind_any_history_packets P prs skip r opt ops cs : fresh r -> r_kind r = Seekable ->
+  let s := run_ops P prs skip ops (init_dstate r opt) in
+  calls_pk (d_pm s) P prs skip cs (init_dstate r opt) ->
+  fst (rewind s) = 0 /\ calls P prs skip cs (snd (rewind s)) = calls P prs skip cs (init_dstate r opt).
+Proof.
+  intros Hf Hk s Hpk. apply rewind_any_history; [exact Hf|exact Hk|]. apply calls_of_pk; [apply pinv_init|exact Hpk].
+Qed.
